@@ -422,6 +422,9 @@ def _indexed_scalar(interp, o, name, ty):
         return SChoice(t, ty.values) if len(ty.values) > 1 else ty.values[0]
     if isinstance(ty, Const):
         return ty.value
+    if isinstance(ty, Opaq):
+        # a value nothing is done with: identified by owner, attribute and index term (as in make_indexed)
+        return OpaqueVal('%s[%s]' % (base, ', '.join(str(z3.simplify(i)) for i in idx)))
     raise Unsupported('indexed attribute of type %r' % (ty,))
 
 
